@@ -6,6 +6,7 @@ pub mod c03;
 pub mod sat;
 pub mod c04;
 pub mod c05;
+pub mod c06;
 pub mod c07;
 pub mod c08;
 pub mod c09;
@@ -44,6 +45,7 @@ pub fn registry() -> Vec<Property> {
         Property { id: "C03", gen: c03::gen, exec: c03::exec, shrink: c03::shrink, runs: (60, 900) },
         Property { id: "C04", gen: c04::gen, exec: c04::exec, shrink: c04::shrink, runs: (160, 2500) },
         Property { id: "C05", gen: c05::gen, exec: c05::exec, shrink: c05::shrink, runs: (300, 6000) },
+        Property { id: "C06", gen: c06::gen, exec: c06::exec, shrink: c06::shrink, runs: (48, 1200) },
         Property { id: "C07", gen: c07::gen, exec: c07::exec, shrink: c07::shrink, runs: (600, 12000) },
         Property { id: "C08", gen: c08::gen, exec: c08::exec, shrink: c08::shrink, runs: (120, 4000) },
         Property { id: "C09", gen: c09::gen, exec: c09::exec, shrink: c09::shrink, runs: (300, 6000) },
